@@ -83,6 +83,7 @@ def run(ctx):
 
     plan = [("clean", 150, 12), ("hostile", 60, 10)] if ctx.quick else [("clean", 2500, 20), ("hostile", 600, 12)]
     aborted = {}
+    alltraces = []
     for prof, n, ev in plan:
         traces = ctx.impl("harness/introducer_driver.py", ["--profile", prof, "--n", n, "--events", ev])
         for tr in traces:
@@ -96,7 +97,8 @@ def run(ctx):
                         aborted[k] = aborted.get(k, 0) + 1
             ctx.count(json.dumps(tr["events"], sort_keys=True) if forged and undelivered else None)
         ctx.sample({"profile": prof, "consts": traces[0]["consts"], "events": traces[0]["events"][:3]}, limit=2)
-        ctx.trace("net/TraceIntroducer", traces, key_of=key_of, what_of=what_of, batch=500)
+        alltraces += traces
+    ctx.trace("net/TraceIntroducer", alltraces, key_of=key_of, what_of=what_of, batch=800)
     if aborted:
         ctx.notes.append("exceptions that escaped remote_announce_v2 (diagnosis; the verdict is the Spec's comparison of deliveries "
                          "and store): %s" % json.dumps(aborted, sort_keys=True))
